@@ -87,6 +87,7 @@ VARIABLES
   c2,         \* unresolved v2 contracts    id -> contract
   pool,       \* State.SiafundTaxRevenue
   fnd,        \* [p, m] Foundation subsidy / management address
+  natt,       \* State.Attestations: number of attestations so far
   undo,       \* stack of committed states (for Revert)
   minted, claimed, forfeited,   \* history: subsidies so far, claims paid, value forfeited by v2 expirations
   spentBag,   \* history: id -> number of times spent/resolved in the accepted history (branch-local)
@@ -95,11 +96,11 @@ VARIABLES
   nrev,       \* Revert steps so far
   hist        \* generation only: the behaviour as a sequence of steps (never part of a VIEW)
 
-committed == <<height, sc, sf, c1, c2, pool, fnd, minted, claimed, forfeited, spentBag, gone>>
-vars == <<height, sc, sf, c1, c2, pool, fnd, undo, minted, claimed, forfeited, spentBag, gone, ms, nrev, hist>>
+committed == <<height, sc, sf, c1, c2, pool, fnd, natt, minted, claimed, forfeited, spentBag, gone>>
+vars == <<height, sc, sf, c1, c2, pool, fnd, natt, undo, minted, claimed, forfeited, spentBag, gone, ms, nrev, hist>>
 child == height + 1
 
-Snapshot == [height |-> height, sc |-> sc, sf |-> sf, c1 |-> c1, c2 |-> c2, pool |-> pool, fnd |-> fnd,
+Snapshot == [height |-> height, sc |-> sc, sf |-> sf, c1 |-> c1, c2 |-> c2, pool |-> pool, fnd |-> fnd, natt |-> natt,
              minted |-> minted, claimed |-> claimed, forfeited |-> forfeited, spentBag |-> spentBag, gone |-> gone]
 
 \* ---- MidState -------------------------------------------------------------------
@@ -107,7 +108,7 @@ Snapshot == [height |-> height, sc |-> sc, sf |-> sf, c1 |-> c1, c2 |-> c2, pool
 \* spends = MidState.spends; created = ids created in this block (ephemeral: not in the accumulator);
 \* rev2 = v2 contracts revised in this block; base1 = pre-block version of v1 contracts touched in this block.
 FreshMS == [sc |-> sc, sf |-> sf, c1 |-> c1, c2 |-> c2, spends |-> {}, created |-> {}, rev2 |-> {},
-            pool |-> pool, fnd |-> fnd, fees |-> 0, forfeit |-> 0, claimed |-> 0, ntx |-> 0, nv2 |-> 0,
+            pool |-> pool, fnd |-> fnd, att |-> 0, fees |-> 0, forfeit |-> 0, claimed |-> 0, ntx |-> 0, nv2 |-> 0,
             bad |-> FALSE, txs |-> <<>>, focus |-> "any"]
 
 \* ---- generic transaction --------------------------------------------------------
@@ -115,10 +116,11 @@ FreshMS == [sc |-> sc, sf |-> sf, c1 |-> c1, c2 |-> c2, spends |-> {}, created |
 \* fee: Nat  (v1: one MinerFees entry when > 0)
 \* fc: <<contract>>   rev: <<[cid, c, auth]>>
 \* res: <<[cid, kind, pf, ren]>>  kind \in {"proof","expire","renew"}; pf = proof quality; ren = renewal record or NoRen
-\* fnd: "" | new Foundation address        tag: template / defect name
+\* fnd: "" | new Foundation address        att: number of attestations (v2), aauth: their signature quality
+\* tag: template / defect name
 NoRen == [fr |-> 0, fh |-> 0, rr |-> 0, hr |-> 0, nc |-> NULL, auth |-> "ok"]
 EmptyTx(ver) == [ver |-> ver, sci |-> <<>>, sco |-> <<>>, sfi |-> <<>>, sfo |-> <<>>, fee |-> 0,
-                 fc |-> <<>>, rev |-> <<>>, res |-> <<>>, fnd |-> "", fauth |-> "ok", tag |-> "",
+                 fc |-> <<>>, rev |-> <<>>, res |-> <<>>, fnd |-> "", fauth |-> "ok", att |-> 0, aauth |-> "ok", tag |-> "",
                  slack |-> -1]   \* distance (in blocks) from the height at which the transaction's timing rule flips; -1: none
 
 AuthOK(a) == a = "ok"
@@ -175,7 +177,7 @@ V1_Foundation(m, t) ==
   (child >= FoundH /\ t.fnd # "") =>
      /\ t.fnd # "V"
      /\ \E i \in DOMAIN t.sci : /\ t.sci[i].id \in DOMAIN m.sc
-                                /\ m.sc[t.sci[i].id].addr \in {m.fnd.p, m.fnd.m}
+                                /\ m.sc[t.sci[i].id].addr \in {fnd.p, fnd.m}     \* the Foundation keys as of the parent state
                                 /\ t.fauth = "ok"                 \* whole-transaction signature of that input
 V1_NoDupParents(m, t) ==   \* validateSignatures: one sigMap entry per parent
   NoDup([i \in DOMAIN t.sci |-> t.sci[i].id] \o [i \in DOMAIN t.sfi |-> t.sfi[i].id] \o [i \in DOMAIN t.rev |-> t.rev[i].cid])
@@ -223,7 +225,8 @@ Apply1(m, t) ==
 \* ephemeral (created in this block)
 InAcc(committedF, id) == id \in DOMAIN committedF
 V2_Era(m, t) == child >= AllowH
-V2_NonEmpty(m, t) == t.sci # <<>> \/ t.sco # <<>> \/ t.sfi # <<>> \/ t.sfo # <<>> \/ t.fc # <<>> \/ t.rev # <<>> \/ t.res # <<>> \/ t.fnd # ""
+V2_NonEmpty(m, t) == t.sci # <<>> \/ t.sco # <<>> \/ t.sfi # <<>> \/ t.sfo # <<>> \/ t.fc # <<>> \/ t.rev # <<>> \/ t.res # <<>> \/ t.fnd # "" \/ t.att > 0
+V2_Attestations(m, t) == t.att > 0 => AuthOK(t.aauth)        \* every attestation is signed by its key
 RenewIn(t)  == SumF([i \in DOMAIN t.res |-> IF t.res[i].kind = "renew" THEN t.res[i].ren.rr + t.res[i].ren.hr ELSE 0], DOMAIN t.res)
 RenewOut(t) == SumF([i \in DOMAIN t.res |-> IF t.res[i].kind = "renew" THEN LET nc == t.res[i].ren.nc IN nc.r + nc.h + Tax2(nc.r, nc.h) ELSE 0], DOMAIN t.res)
 V2_Siacoins(m, t) ==
@@ -285,9 +288,12 @@ V2_Resolutions(m, t) == \A i \in DOMAIN t.res : LET r == t.res[i] IN
          [] r.kind = "proof"  -> child >= c.ph + 1 /\ (r.pf = "ok")   \* the block at ProofHeight must be an ancestor
          [] r.kind = "expire" -> child > c.eh
 V2_Foundation(m, t) ==
-  t.fnd # "" => \E i \in DOMAIN t.sci : t.sci[i].id \in DOMAIN m.sc /\ m.sc[t.sci[i].id].addr = m.fnd.m
+  \* (authority is judged against the parent state: a second update in the same block is still authorised by the keys
+  \*  the block started with)
+  t.fnd # "" => \E i \in DOMAIN t.sci : t.sci[i].id \in DOMAIN m.sc /\ m.sc[t.sci[i].id].addr = fnd.m
 Valid2(m, t) == /\ V2_Era(m, t) /\ V2_NonEmpty(m, t) /\ V2_Siacoins(m, t) /\ V2_Siafunds(m, t)
                 /\ V2_Formation(m, t) /\ V2_Revisions(m, t) /\ V2_Resolutions(m, t) /\ V2_Foundation(m, t)
+                /\ V2_Attestations(m, t)
 
 (* ------------------------- v2 application (ApplyV2Transaction) ------------------------- *)
 Claims2(m, t) == Claims(m, t)
@@ -323,6 +329,7 @@ Apply2(m, t) ==
         !.forfeit = @ + forf,
         !.fees = @ + t.fee,
         !.fnd = IF t.fnd = "" THEN @ ELSE [p |-> t.fnd, m |-> IF t.fnd = "V" THEN @.m ELSE t.fnd],
+        !.att = @ + t.att,
         !.ntx = @ + 1, !.nv2 = @ + 1,
         !.txs = Append(@, t)]
 
@@ -339,7 +346,8 @@ CONSTANTS PayAmts, Fees, Pay1, Sizes, FormRH, RevShifts, SFSplits,
                      \* drowned by the many payment variants); FALSE = all enabled templates in every block
 
 Owners == Addrs
-SpendableSC(m) == {id \in DOMAIN m.sc : id \notin m.spends /\ m.sc[id].mat <= child /\ m.sc[id].addr \in Owners \cup {"F", "M"}}
+\* (the Foundation subsidy is opaque in the bounded model - its real value is 30000 SC per block of the period - and is never spent)
+SpendableSC(m) == {id \in DOMAIN m.sc : id \notin m.spends /\ m.sc[id].mat <= child /\ m.sc[id].addr \in Owners \cup {"F", "M"} /\ id[1] # FOUND}
 LiveSF(m) == {id \in DOMAIN m.sf : id \notin m.spends}
 In(id) == [id |-> id, auth |-> "ok"]
 Out(v, a) == [val |-> v, addr |-> a]
@@ -414,7 +422,10 @@ T_Fnd(m) == IF "fnd" \notin Templates THEN {} ELSE
      q \in Vers \X {y \in SpendableSC(m) : m.sc[y].addr \in {"F", "M"}} \X {"F", "M"}}
 
 On(m, k, S) == IF m.focus = "any" \/ m.focus = k THEN S ELSE {}
-Cand(m) == On(m, "pay", T_Pay(m)) \cup On(m, "pay2", T_Pay2(m)) \cup On(m, "sf", T_SF(m)) \cup On(m, "form1", T_Form1(m))
+T_Attest(m) == IF "attest" \notin Templates \/ 2 \notin Vers THEN {} ELSE
+  {[EmptyTx(2) EXCEPT !.sci = <<In(id)>>, !.sco = <<Out(m.sc[id].val, m.sc[id].addr)>>, !.att = 1, !.tag = "attest"] : id \in SpendableSC(m)}
+  \cup {[EmptyTx(2) EXCEPT !.att = 2, !.tag = "attest"]}      \* a transaction of attestations only
+Cand(m) == On(m, "attest", T_Attest(m)) \cup On(m, "pay", T_Pay(m)) \cup On(m, "pay2", T_Pay2(m)) \cup On(m, "sf", T_SF(m)) \cup On(m, "form1", T_Form1(m))
            \cup On(m, "rev1", T_Rev1(m)) \cup On(m, "prove1", T_Prove1(m)) \cup On(m, "form2", T_Form2(m)) \cup On(m, "rev2", T_Rev2(m))
            \cup On(m, "res2", T_Res2(m)) \cup On(m, "renew2", T_Renew2(m)) \cup On(m, "fnd", T_Fnd(m))
 
@@ -427,6 +438,7 @@ Mut(m, t) ==
 \cup (IF "unbalanced" \in Defects /\ t.sco # <<>> /\ t.sco[1].val > 1 THEN {Tag([t EXCEPT !.sco[1].val = @ - 1], "minus1")} ELSE {})
 \cup (IF "zero" \in Defects /\ t.sco # <<>> /\ t.sci # <<>> THEN {Tag([t EXCEPT !.sco = Append(@, Out(0, "A"))], "zero")} ELSE {})
 \cup (IF "auth" \in Defects /\ t.sci # <<>> THEN {Tag([t EXCEPT !.sci[1].auth = a], a) : a \in {"badsig", "nosig", "wrongkey"}} ELSE {})
+\cup (IF "auth" \in Defects /\ t.att > 0 THEN {Tag([t EXCEPT !.aauth = "badsig"], "badsig")} ELSE {})
 \cup (IF "auth" \in Defects /\ t.sfi # <<>> THEN {Tag([t EXCEPT !.sfi[1].auth = "badsig"], "badsig")} ELSE {})
 \cup (IF "auth" \in Defects /\ t.rev # <<>> THEN {Tag([t EXCEPT !.rev[1].auth = a], a) : a \in {"badsig", "newkeys"}} ELSE {})
 \cup (IF "intx" \in Defects /\ t.sci # <<>> THEN {Tag([t EXCEPT !.sci = Append(@, @[1]), !.sco = Append(@, Out(m.sc[t.sci[1].id].val, "A"))], "intx")} ELSE {})
@@ -491,7 +503,7 @@ GenesisSC == [id \in {Id(SCO, 0, 0, i, 0) : i \in DOMAIN GenSC} |-> [val |-> Gen
 GenesisSF == [id \in {Id(SFO, 0, 0, i, 0) : i \in DOMAIN GenSF} |-> [val |-> GenSF[id[4]].val, addr |-> GenSF[id[4]].addr, cs |-> 0]]
 \* the genesis block's own miner payout is empty; height 0 is the genesis block
 Init == /\ height = 0 /\ sc = GenesisSC /\ sf = GenesisSF /\ c1 = <<>> /\ c2 = <<>> /\ pool = 0
-        /\ fnd = [p |-> "F", m |-> "M"] /\ undo = <<>> /\ minted = SumVals(GenSC) /\ claimed = 0 /\ forfeited = 0
+        /\ fnd = [p |-> "F", m |-> "M"] /\ natt = 0 /\ undo = <<>> /\ minted = SumVals(GenSC) /\ claimed = 0 /\ forfeited = 0
         /\ spentBag = <<>> /\ gone = <<>> /\ ms = NULL /\ nrev = 0 /\ hist = <<>>
 
 Begin == /\ ms = NULL /\ height < MaxHeight
@@ -519,7 +531,7 @@ GoneRec(m, id) == IF id[1] = SFO THEN [k |-> "sf", val |-> m.sf[id].val, addr |-
                   ELSE IF id[1] = FC2 THEN [k |-> "c2", val |-> 0, addr |-> ""]
                   ELSE [k |-> "sc", val |-> m.sc[id].val, addr |-> m.sc[id].addr]
 Post(s) == IF ~HistPost THEN [none |-> TRUE] ELSE
-           [h |-> s.height, pool |-> s.pool, fnd |-> s.fnd,
+           [h |-> s.height, pool |-> s.pool, fnd |-> s.fnd, att |-> s.natt,
             sc |-> {<<id, s.sc[id].val, s.sc[id].addr, s.sc[id].mat>> : id \in DOMAIN s.sc},
             sf |-> {<<id, s.sf[id].val, s.sf[id].addr, s.sf[id].cs>> : id \in DOMAIN s.sf},
             c1 |-> {<<id, s.c1[id]>> : id \in DOMAIN s.c1},
@@ -541,7 +553,7 @@ End ==
              /\ sf' = Restrict(ms.sf, DOMAIN ms.sf \ dead)
              /\ c1' = Restrict(ms.c1, DOMAIN ms.c1 \ dead)
              /\ c2' = Restrict(ms.c2, DOMAIN ms.c2 \ dead)
-             /\ pool' = ms.pool /\ fnd' = ms.fnd
+             /\ pool' = ms.pool /\ fnd' = ms.fnd /\ natt' = natt + ms.att
              /\ minted' = minted + Reward
              /\ claimed' = claimed + ms.claimed
              /\ forfeited' = forfeited + ms.forfeit
@@ -549,13 +561,13 @@ End ==
              \* (including outputs created and spent inside this block: they enter the accumulator as spent leaves)
              /\ gone' = gone ++ [id \in dead |-> GoneRec(ms, id)]
              /\ hist' = Append(hist, [op |-> "block", verdict |-> "accept", txs |-> ms.txs, exp |-> exp,
-                                      post |-> Post([height |-> child, pool |-> ms.pool, fnd |-> ms.fnd, sc |-> sc', sf |-> sf', c1 |-> c1', c2 |-> c2'])])
+                                      post |-> Post([height |-> child, pool |-> ms.pool, fnd |-> ms.fnd, natt |-> natt + ms.att, sc |-> sc', sf |-> sf', c1 |-> c1', c2 |-> c2'])])
   /\ ms' = NULL /\ UNCHANGED nrev
 
 Revert == /\ ms = NULL /\ undo # <<>> /\ nrev < MaxReverts
           /\ (StopAfterReject => \A k \in DOMAIN hist : hist[k].verdict # "reject")
           /\ LET u == Head(undo) IN
-               /\ height' = u.height /\ sc' = u.sc /\ sf' = u.sf /\ c1' = u.c1 /\ c2' = u.c2 /\ pool' = u.pool /\ fnd' = u.fnd
+               /\ height' = u.height /\ sc' = u.sc /\ sf' = u.sf /\ c1' = u.c1 /\ c2' = u.c2 /\ pool' = u.pool /\ fnd' = u.fnd /\ natt' = u.natt
                /\ minted' = u.minted /\ claimed' = u.claimed /\ forfeited' = u.forfeited /\ spentBag' = u.spentBag /\ gone' = u.gone
                /\ hist' = Append(hist, [op |-> "revert", verdict |-> "done", post |-> Post(u)])
           /\ undo' = Tail(undo) /\ nrev' = nrev + 1 /\ UNCHANGED ms
